@@ -141,6 +141,60 @@ func H_C10_resend() {
 	}
 }
 
+// H_C10_long: a long history with concrete contents (one symbolic byte per message), optionally
+// starting with a message the session sent before the logon (the Reject of a pre-logon Heartbeat,
+// which takes number 1): the ResendRequest b..e (e = 0: through the last) is answered with exactly
+// the first transmissions b..e. params: [role, n (application sends), b, e, prelogon]
+func H_C10_long() {
+	role, n, b, e := zz.Param(0), zz.Param(1), zz.Param(2), zz.Param(3)
+	zz.Class("long/n=" + strconv.Itoa(n) + "/b=" + strconv.Itoa(b) + "/e=" + strconv.Itoa(e) + "/pre=" + strconv.Itoa(zz.Param(4)))
+	st := memory.NewStorage()
+	var w [][]byte
+	var f *fx
+	peer, me := "CLI", "SRV"
+	inSeq := 1
+	fxBuf = 256 // the whole retransmission has to fit into the outbound queue (no writer here)
+	if role == 0 {
+		f = newAcceptor(st, 1, 60, 0, "0")
+	} else {
+		f = newInitiator(st, 30, "0", "user", "pw", 0)
+		peer, me = "SRV", "CLI"
+		w = append(w, f.h.VerifOut()...)
+	}
+	if zz.Param(4) == 1 {
+		hb := fixgen.CreateHeartbeat()
+		setHdr(hb.Header(), peer, me, inSeq)
+		inSeq++
+		w = append(w, f.serve(wire(hb))...) // rejected: not logged on
+	}
+	w = append(w, f.logon(peer, me, inSeq, 30)...)
+	inSeq++
+	zz.Assume(f.s.IsLogged())
+	x := zz.Byte()
+	zz.Assume(zz.And(x >= 'a', x <= 'z'))
+	for i := 0; i < n; i++ {
+		zz.Assert(f.s.Send(fixgen.CreateTestRequest(string([]byte{x, byte('0' + i%10)}))) == nil, "fixture: Send failed")
+		w = append(w, f.h.VerifOut()...)
+	}
+	last := len(w)
+	for i := range w {
+		w[i] = append([]byte{}, w[i]...)
+	}
+	rr := fixgen.CreateResendRequest(b, e)
+	setHdr(rr.Header(), peer, me, inSeq)
+	out := f.serve(wire(rr))
+	zz.Reach("served")
+	hi := e
+	if e == 0 {
+		hi = last
+	}
+	zz.Assume(b >= 1 && b <= hi && hi <= last)
+	zz.Assert(len(out) == hi-b+1, "C10: the number of retransmitted messages differs from the requested range (long history)")
+	for i := b; i <= hi && i-b < len(out); i++ {
+		zz.Assert(zz.EqBytes(out[i-b], w[i-1]), "C10: retransmission is not byte-identical to the first transmission / not in ascending order (long history)")
+	}
+}
+
 // H_C10_gap: a Logon whose sequence number is ahead of the expected one triggers a ResendRequest
 // starting at the first missing number. params: [role, cClass, nClass]
 func H_C10_gap() {
@@ -585,5 +639,101 @@ func H_C19_events() {
 	zz.Assert(len(calls) == len(want), "C19: event handlers are not called in registration order with early exit")
 	for i := range want {
 		zz.Assert(calls[i] == want[i], "C19: event handlers are not called in registration order")
+	}
+}
+
+// H_C19_late: handlers registered after traffic of their type has already passed are honoured from
+// then on. dir 0: outgoing (send, register a type handler and an all-types handler, send again);
+// dir 1: inbound (serve, register, serve again). params: [dir, second registration too]
+func H_C19_late() {
+	dir := zz.Param(0)
+	zz.Class("late/dir=" + strconv.Itoa(dir) + "/two=" + strconv.Itoa(zz.Param(1)))
+	st := memory.NewStorage()
+	h := simplefixgo.NewAcceptorHandler(contextBG(), "35", 64)
+	s, err := NewAcceptorSession(verifOpts("0"), h, &LogonSettings{LogonTimeout: time.Second, HeartBtLimits: &IntLimits{Min: 1, Max: 60}},
+		func(*LogonSettings) error { return nil }, st, st)
+	zz.Assume(err == nil)
+	_ = s.Run()
+	var calls []int
+	refuse := zz.Bool()
+	if dir == 0 {
+		zz.Assert(s.Send(fixgen.CreateTestRequest("a")) == nil, "fixture: first Send failed")
+		zz.Assert(len(h.VerifOut()) == 1, "fixture: first message not transmitted")
+		h.HandleOutgoing("1", func(simplefixgo.SendingMessage) bool { calls = append(calls, 1); return !refuse })
+		if zz.Param(1) == 1 {
+			h.HandleOutgoing("1", func(simplefixgo.SendingMessage) bool { calls = append(calls, 2); return true })
+		}
+		errSend := s.Send(fixgen.CreateTestRequest("b"))
+		out := h.VerifOut()
+		zz.Reach("sent")
+		zz.Assert(len(calls) >= 1 && calls[0] == 1, "C19: an outgoing handler registered after a message of its type had passed is not run")
+		if refuse {
+			zz.Assert(errSend != nil && len(out) == 0, "C19: the refusal of a late-registered outgoing handler does not stop the message")
+		} else {
+			zz.Assert(errSend == nil && len(out) == 1, "C19: an accepted message is not transmitted exactly once")
+			if zz.Param(1) == 1 {
+				zz.Assert(len(calls) == 2 && calls[1] == 2, "C19: the second late-registered handler is not run after the first")
+			}
+		}
+		return
+	}
+	// inbound: an application message type nobody handles yet
+	m1, _ := mkInbound(mApp, "CLI", "SRV", 1)
+	_ = h.VerifServe(m1)
+	h.HandleIncoming("D", func([]byte) bool { calls = append(calls, 1); return !refuse })
+	if zz.Param(1) == 1 {
+		h.HandleIncoming("D", func([]byte) bool { calls = append(calls, 2); return true })
+	}
+	m2, _ := mkInbound(mApp, "CLI", "SRV", 2)
+	_ = h.VerifServe(m2)
+	zz.Reach("served")
+	zz.Assert(len(calls) >= 1 && calls[0] == 1, "C19: an incoming handler registered after a message of its type had passed is not offered the next one")
+	if zz.Param(1) == 1 {
+		if refuse {
+			zz.Assert(len(calls) == 1, "C19: handlers after a refusing incoming handler are still called")
+		} else {
+			zz.Assert(len(calls) == 2 && calls[1] == 2, "C19: the second late-registered incoming handler is not run after the first")
+		}
+	}
+}
+
+// H_C19_replay: retransmissions leave through the session like first transmissions - every
+// replayed message is offered to the outgoing handlers (all-types first) and a refusal stops it.
+// params: [role, refuseAt (0: none, k: the handler refuses the k-th replayed message)]
+func H_C19_replay() {
+	role := zz.Param(0)
+	zz.Class("replay/role=" + strconv.Itoa(role) + "/refuseAt=" + strconv.Itoa(zz.Param(1)))
+	f := loggedOn(role, memory.NewStorage())
+	zz.Assume(f.s.IsLogged())
+	_ = f.h.VerifOut()
+	peer, me := "CLI", "SRV"
+	if role == 1 {
+		peer, me = "SRV", "CLI"
+	}
+	_ = f.s.Send(fixgen.CreateTestRequest(string(zz.Bytes(2))))
+	_ = f.s.Send(fixgen.CreateHeartbeat())
+	first := f.h.VerifOut()
+	zz.Assume(len(first) == 2)
+	last, _ := f.st.GetCurrSeqNum(fix.StorageID{Side: fix.Outgoing})
+	var seen [][]byte
+	n := 0
+	f.h.HandleOutgoing(simplefixgo.AllMsgTypes, func(m simplefixgo.SendingMessage) bool {
+		b, _ := m.ToBytes()
+		seen = append(seen, append([]byte{}, b...))
+		n++
+		return n != zz.Param(1)
+	})
+	rr := fixgen.CreateResendRequest(1, 0)
+	setHdr(rr.Header(), peer, me, 2)
+	out := f.serve(wire(rr))
+	zz.Reach("served")
+	want := last
+	if zz.Param(1) > 0 && zz.Param(1) <= last {
+		want = zz.Param(1) - 1 // the refused message and, the batch being abandoned, the rest stay off the wire
+	}
+	zz.Assert(len(seen) >= len(out), "C19: a retransmitted message left without being offered to the outgoing handlers")
+	zz.Assert(len(out) == want, "C19: the refusal of an outgoing handler does not stop a retransmission (or too few are sent)")
+	for i := range out {
+		zz.Assert(zz.EqBytes(out[i], seen[i]), "C19: an outgoing handler saw a retransmission differently from what is transmitted")
 	}
 }
